@@ -377,6 +377,8 @@ class annotate(object):
         func.__signature__ = sig
         for pok in reversed(poks):
             pok._prepare()
+            # bound copies made before this point advertise the old signature
+            pok.insts.clear()
         return obj
 
     def __repr__(self):
